@@ -311,6 +311,41 @@ pub fn shape_programs() -> Vec<String> {
 /// Every ASCII character (0x00..=0x7F) and a few non-ASCII ones in every lexical position where
 /// the language draws a character class: inside comments, inside and at the start of labels, right
 /// after a mnemonic, between operands, inside numbers.
+/// Long texts: many lines of every line kind around the 8-bit counts (254..=257), 300, and thousands;
+/// very long single lines; long lists. The image stays small unless the kind itself emits bytes.
+pub fn long_programs() -> Vec<String> {
+    let mut out = vec![];
+    let tail = "L:\n INC R0\n ST (0xFF), R0\n JR L\n";
+    for n in [100usize, 253, 254, 255, 256, 257, 300, 1000, 2000, 5000, 20000] {
+        for (kind, line) in [("comment", "; a comment line\n"), ("blank", "\n"), ("indented comment", "    ; x\n"), ("equ", ".EQU v 7\n")] {
+            let _ = kind;
+            out.push(format!("{}{}{}", HDR, line.repeat(n), tail));
+            out.push(format!("{}{}{}", HDR, tail, line.repeat(n)));
+        }
+        if n <= 2000 {
+            // instruction lines (the image outgrows the RAM beyond 240 one-byte instructions: C06's known classes)
+            out.push(format!("{}{}", HDR, " NOP\n".repeat(n)));
+            out.push(format!("{}{}", HDR, " BITT R0, R1 ; c\n".repeat(n)));
+            out.push(format!("{}{}", HDR, " .BYTE 0\n".repeat(n)));
+        }
+    }
+    // at most 40 labels, spread over many lines
+    out.push(format!("{}{}", HDR, (0..40).map(|i| format!("L{}:\n{}", i, "; c\n".repeat(7))).collect::<String>()));
+    // one very long line of each kind
+    for n in [1000usize, 100_000] {
+        out.push(format!("{}; {}\n", HDR, "x".repeat(n)));
+        out.push(format!("{} NOP ; {}\n", HDR, "y ".repeat(n / 2)));
+        out.push(format!("{} NOP{}; c\n", HDR, " ".repeat(n)));
+        out.push(format!("{}{}NOP\n", HDR, "\t".repeat(n)));
+        out.push(format!("{}{}:\n", HDR, "L".repeat(n)));
+        out.push(format!("{} LD R0, {}5\n", HDR, "0".repeat(n)));
+    }
+    out.push(format!("{} .DB {}\n", HDR, (0..240).map(|i| i.to_string()).collect::<Vec<_>>().join(", ")));
+    out.push(format!("{} .DB {}\n", HDR, (0..2000).map(|i| (i % 256).to_string()).collect::<Vec<_>>().join(",")));
+    out.push(format!("{} .DW {}\n", HDR, (0..120).map(|i| (i * 531).to_string()).collect::<Vec<_>>().join(", ")));
+    out
+}
+
 pub fn char_class_programs() -> Vec<String> {
     let mut out = vec![];
     let mut chars: Vec<char> = (0u8..=0x7F).map(|b| b as char).collect();
